@@ -195,8 +195,11 @@ def run_harnesses(res, cfg, sc, tier):
         if res.pid not in h["props"]:
             continue
         t = h.get("tier", "quick")
-        if t == "quick" or tier == "thorough" and t != "never" or (demoted & set(h.get("covers", []))):
+        changed = getattr(res, "changed_fns", set())
+        if t == "quick" or (tier == "thorough" and t != "never") or ((demoted | changed) & set(h.get("covers", []))):
             want.append(h)
+        elif t in ("changed", "thorough", "fallback"):
+            res.trusted.append("not re-run in the quick tier (text of the covered function(s) unchanged since the committed baseline): Kani harness %s - %s" % (h["name"], h.get("contract", "")))
     if not want:
         return
     ov = overlay(sc)
